@@ -95,4 +95,37 @@ theorem C05_javadoc_examples :
          ⟨str "param", str "x the x", str "param"⟩, ⟨str "throws", str "E when", str "throws"⟩, ⟨str "return", str "it", str "unknown"⟩,
          ⟨str "see", str "Other", str "see"⟩] := by decide
 
+/-- **C05 (queryable Javadoc tags)**: `getDoc().GetCommentX()` is the text of the *first* tag of that name as
+    written, however many follow … -/
+theorem C05_doc_accessor_first (front back : List Tag) (t : Tag) (name : String)
+    (ht : t.name = str name) (hfront : ∀ x ∈ front, x.name ≠ str name) :
+    docAccessor (front ++ t :: back) name = t.text := by
+  unfold docAccessor
+  have h1 : (front ++ t :: back).find? (fun x => x.name == str name) = some t := by
+    rw [List.find?_append]
+    have : front.find? (fun x => x.name == str name) = none := by
+      rw [List.find?_eq_none]; intro x hx; simpa using hfront x hx
+    simp [this, ht]
+  rw [h1]; rfl
+
+/-- … empty when no tag has that name … -/
+theorem C05_doc_accessor_none (tags : List Tag) (name : String) (h : ∀ x ∈ tags, x.name ≠ str name) :
+    docAccessor tags name = [] := by
+  unfold docAccessor
+  have : tags.find? (fun x => x.name == str name) = none := by
+    rw [List.find?_eq_none]; intro x hx; simpa using h x hx
+  rw [this]; rfl
+
+/-- … and `GetCommentParam` lists every `@param` text in source order. -/
+theorem C05_doc_params (tags : List Tag) :
+    docParams tags = (tags.filter (fun t => t.name == str "param")).map (·.text) := rfl
+
+/-- Regenerated from model/javadoc.go: every accessor has exactly that shape (a loop returning the first match's
+    text, `""` otherwise; the `@param` accessor appends all), for its own tag name. -/
+theorem C05_doc_accessors_shape :
+    Cpf.Generated.docAccessors =
+      [("GetCommentAuthor", "author", "first"), ("GetCommentSee", "see", "first"), ("GetCommentVersion", "version", "first"),
+       ("GetCommentSince", "since", "first"), ("GetCommentParam", "param", "all"), ("GetCommentThrows", "throws", "first"),
+       ("GetCommentReturn", "return", "first")] := by decide
+
 end Cpf.Props.C05
